@@ -40,9 +40,11 @@ def replay_dbw(model):
                  "inputs": m}
 
 
-def replay_dgor(model):
+def replay_dgor(model, int_p=False):
     from bluebonnet.fluids import oil
-    m = model_floats(model, ["T", "p", "api", "gg", "rsi"])
+    m = model_floats(model, ["T", "p", "api", "gg", "rsi"], default=dict(T=200.0, p=2000.0, api=35.0, gg=0.8, rsi=650.0))
+    if int_p:
+        m["p"] = int(round(m["p"]))          # a pressure given as a Python int (the docstring's own example: 2_000)
     a = (m["T"], m["api"], m["gg"], m["rsi"])
     pb = oil.pressure_bubblepoint_Standing(*a)
     f = lambda p: oil.solution_gor_Standing(m["T"], p, m["api"], m["gg"], m["rsi"])
@@ -60,8 +62,8 @@ def replay_dgor(model):
                                       f"(derivative 0) but dgor_dpressure_Standing returns {hand_b!r}", "inputs": m2}
     if abs(m["p"] - pb) <= 2 * h:
         return False, {"what": "too close to the bubble point for a finite-difference replay", "inputs": m}
-    num = _richardson(f, m["p"], h)
-    hand = oil.dgor_dpressure_Standing(m["T"], m["p"], m["api"], m["gg"], m["rsi"])
+    num = _richardson(f, float(m["p"]), h)
+    hand = float(oil.dgor_dpressure_Standing(m["T"], m["p"], m["api"], m["gg"], m["rsi"]))
     bad = abs(num - hand) > 1e-6 * abs(hand) + 1e-12
     return bad, {"what": f"dRs/dp: numerical derivative of solution_gor_Standing {num!r} vs dgor_dpressure_Standing "
                          f"{hand!r} (bubble point {pb!r})", "inputs": m}
@@ -147,11 +149,14 @@ def job_water(job):
             job.validate("b_water_McCain_dp", evalf(hand, env), float(rw.b_water_McCain_dp(t, p)), inputs=env)
 
 
-def job_dgor(job):
+def job_dgor(job, int_p=False):
     oil = load_sym("bluebonnet.fluids.oil")
     job.encoded(oil, "solution_gor_Standing", "dgor_dpressure_Standing", "pressure_bubblepoint_Standing")
     job.bound(oil_box="T 80..350 F, API 12..55, gas gravity 0.56..1.3, initial GOR 20..2500, p 15..20000 psia")
-    vs, dom = box(job, p=(15, 20000), **OIL_BOX)
+    vs, dom = box(job, _integer=("p",) if int_p else (), p=(15, 20000), **OIL_BOX)
+    itag = "[pressure a Python int]" if int_p else ""
+    if int_p:
+        job.bound(pressure_kind="a Python int (whole psi), as in the function's own docstring example")
     a = (vs["T"], vs["p"], vs["api"], vs["gg"], vs["rsi"])
     res = paths(job, lambda: (oil.solution_gor_Standing(*a), oil.dgor_dpressure_Standing(*a)), dom)
     if len(res) < 2:
@@ -160,10 +165,12 @@ def job_dgor(job):
     for k, pr in enumerate(res):
         parent, hand = pr.value
         d = T.diff(P(parent), _var_atom(vs["p"]))
-        job.prove(f"oil/dRs_dp[path{k}]", pr.pc + [not_close(simp(d), hand, abs_tol=Fraction(0))], bound="oil box",
-                  replay=replay_dgor)
-        job.prove(f"oil/dRs_dp/reach[path{k}]", pr.pc, expect="sat")
-        check_defined(job, f"oil/dRs_dp/path{k}", pr)
+        job.prove(f"oil/dRs_dp{itag}[path{k}]", pr.pc + [not_close(simp(d), hand, abs_tol=Fraction(0))], bound="oil box",
+                  replay=(replay_dgor, {"int_p": int_p}))
+        job.prove(f"oil/dRs_dp{itag}/reach[path{k}]", pr.pc, expect="sat")
+        check_defined(job, f"oil/dRs_dp{itag}/path{k}", pr)
+        if int_p:
+            continue
         for tcase in OIL_TESTS:
             env = dict(tcase)
             try:
@@ -213,7 +220,9 @@ def _uf(name, pos=True, like=None):
         if sig is not None:
             ba = sig.bind(*args, **kwargs)
             ba.apply_defaults()
-            args = tuple(K(repr(v)) if isinstance(v, (int, float)) and not isinstance(v, bool) else v for v in ba.arguments.values())
+            # an optional argument left at (or passed as) None reaches the real function as "not given": it is not part of the
+            # argument list of the uninterpreted function; any other value in its place is
+            args = tuple(K(repr(v)) if isinstance(v, (int, float)) and not isinstance(v, bool) else v for v in ba.arguments.values() if v is not None)
         elif kwargs:
             raise TypeError(f"{name}() stub called with keyword arguments {sorted(kwargs)} but no signature to bind them to")
         arrs = [a for a in args if isinstance(a, SymArray)]
@@ -280,5 +289,5 @@ def job_co(job, real_parts=False, defaults=False):
 
 
 def jobs(tier):
-    return [("water", job_water), ("dgor", job_dgor), ("dbo", job_dbo),
+    return [("water", job_water), ("dgor", job_dgor), ("dgor-int-pressure", lambda j: job_dgor(j, True)), ("dbo", job_dbo),
             ("co-uf", lambda j: job_co(j, False)), ("co-real", lambda j: job_co(j, True)), ("co-uf-default-standard-conditions", lambda j: job_co(j, False, True))]
